@@ -4,7 +4,7 @@ spec:     specs/c12_resp_cache  CacheP (property), CacheI (implementation-shaped
 binding:  harness/cmd/c12 drives the real CachingPlugin / ResponseBasedThrottlingPlugin (OnRequest, OnResponse) and
           utils.MemoryCache on a lock-step clock whose timers can be made to lag; yield point cache.set.checked
 """
-import json, os
+import json, os, re
 from vlib import Broken, read_ndjson, write_ndjson, validate_history_trace, parallel, tlc_vh_lines, split_histories
 
 SPEC = "c12_resp_cache"
@@ -20,6 +20,9 @@ GEN = {"cache": {"typ": "cache", "ttl": 3, "max": 4, "sel": ["id"], "relevant": 
 # configurations of the exhaustive instances (MC_*.cfg), needed to replay their counterexamples
 MCCONF = {"cache": {"typ": "cache", "ttl": 2, "max": 3, "sel": ["id"], "relevant": []},
           "abs": {"typ": "abs", "ttl": 0, "max": -1, "sel": [], "relevant": [429]}}
+
+
+UNREPRODUCED = []
 
 
 class Unforceable(Exception):
@@ -298,6 +301,8 @@ def judge(ctx, binary, scripts, traces, tag, seen, flags):
                 if nontrivial(h):
                     ctx.cov["distinct_nontrivial"] += 1
         for rej in rejected:
+            if len(ctx.violations) >= 12:       # enough confirmed witnesses: do not spend the budget on more of the same
+                break
             w = witness_of(rej)
             hi = hs.index(rej["hist"])
             script = [{"config": sc["config"], "histories": [sc["histories"][hi]]}]
@@ -309,7 +314,11 @@ def judge(ctx, binary, scripts, traces, tag, seen, flags):
                     reproduced = True
                     break
             if not reproduced:
-                raise Broken("rejection not reproduced (%s): %s" % (tag, json.dumps(w)))
+                # schedule-dependent and not reproducible: never reported as a violation; the run is broken (exit 2)
+                # unless other, reproducible violations are reported
+                ctx.notes.append("UNREPRODUCED (%s): %s" % (tag, json.dumps(w)[:400]))
+                UNREPRODUCED.append(w)
+                continue
             ctx.violation(w, {"script": script, "trace": [rej["config"]] + rej["hist"], "rejected_at": rej["at"]})
     # conformance of the implementation-shaped model (never a verdict)
     def drift(it):
@@ -327,6 +336,32 @@ def judge(ctx, binary, scripts, traces, tag, seen, flags):
             ctx.cov["model_drift"] = True
             if len([n for n in ctx.notes if n.startswith("MODEL-DRIFT")]) < 5:
                 ctx.notes.append("MODEL-DRIFT (%s): the code does not behave like CacheI at %s" % (tag, json.dumps(d["hist"][d["at"]])[:300]))
+
+
+def witnesses(ctx, sd, module, cfg, names):
+    """non-vacuity: each witness invariant denies a situation the properties talk about and must be *violated*"""
+    base = open(os.path.join(sd, cfg)).read()
+    def one(w):
+        c = "wit_%s.cfg" % w
+        open(os.path.join(sd, c), "w").write(re.sub(r"(?m)^INVARIANTS.*$", "INVARIANTS " + w, base))
+        return ctx.tlc(sd, module, c, workers=2, timeout=600, label="witness " + w, count=False)
+    for w, r in zip(names, parallel(one, names, n=4)):
+        if r.violated != w:
+            raise Broken("vacuous model: the situation denied by %s is never reached (%r)" % (w, r))
+    ctx.notes.append("non-vacuity witnesses reached: " + ", ".join(names))
+
+
+def coverage(ctx, results, actions):
+    """-coverage 1: every action of the implementation-shaped model must have been taken in some exhaustive run"""
+    tot = {}
+    for r in results:
+        for a, d, g in re.findall(r"(?m)^<(\w+) line [^>]*>: (\d+):(\d+)", r.out):
+            tot[a] = tot.get(a, 0) + int(g)
+    dead = [a for a in actions if not tot.get(a)]
+    if dead:
+        raise Broken("vacuous model: actions never taken in any exhaustive run: %s" % dead)
+    ctx.notes.append("action coverage (states generated per action, summed over the exhaustive runs): " +
+                     ", ".join("%s=%d" % (a, tot[a]) for a in actions))
 
 
 def cx_of(r):
@@ -367,7 +402,8 @@ def run(ctx):
     def mc(it):
         name, what = it[0], it[-1]
         if it in good:
-            return ctx.tlc_exhaustive(sd, "MC_C12", name + ".cfg", workers=4, timeout=1500, label="I=>P " + what)
+            return ctx.tlc_exhaustive(sd, "MC_C12", name + ".cfg", workers=4, timeout=1500, label="I=>P " + what,
+                                      extra=["-coverage", "1"] if T else [])
         return ctx.tlc(sd, "MC_C12", name + ".cfg", workers=1, timeout=300, label="non-vacuity: " + what)
     rs = parallel(mc, good + bad, n=4 if not T else 3)
     cxs = {}
@@ -376,6 +412,11 @@ def run(ctx):
             if r.violated is None or not cx_of(r):
                 raise Broken("the model cannot tell the variant '%s' from the property (vacuous check): %r" % (it[2], r))
             cxs[it[0]] = (it[1], cx_of(r))
+
+    if T:
+        witnesses(ctx, sd, "MC_C12", "MC_cache_wit.cfg", ["WitReplay", "WitLaggingNoop", "WitSizeReject", "WitStaleSleeper"])
+        coverage(ctx, [r for it, r in zip(good + bad, rs) if it in good],
+                 ["Advance", "FireDue", "WBegin", "WHas", "WCheck", "WInsert", "Req"])
 
     # (2) the counterexamples of the deviating variants, forced on the real code and judged by P
     scripts, names = [], []
@@ -443,7 +484,9 @@ def run(ctx):
     ctx.log("recorded %d random scripts" % len(scripts))
     ctx.sample({"kind": "recorded-trace", "events": traces[0][:12]})
     judge(ctx, binary, scripts, traces, "rand", seen, [(0, 0), (1, 1), (1, 0), (0, 1)])
-    if ctx.cov["distinct_nontrivial"] < 20:
+    if UNREPRODUCED and not ctx.violations:
+        raise Broken("%d rejection(s) by the specification could not be reproduced: %s" % (len(UNREPRODUCED), json.dumps(UNREPRODUCED[0])[:600]))
+    if ctx.cov["distinct_nontrivial"] < 20 and not ctx.violations:
         raise Broken("only %d non-trivial histories: the run does not exercise the property" % ctx.cov["distinct_nontrivial"])
 
     # (5) binding self-test (thorough): corrupted recordings must be rejected
